@@ -26,6 +26,14 @@ package remoting
 // began - not more (bytes of the next frame must stay in the connection), not less (the stream would be out of
 // step). A length prefix above the 4 MiB limit is skipped on its own (the property's "frame with invalid length").
 //@ func (*tcpConnectionActor).onReadConn
+//@   ghostvar rf int
+//@   callspec ReadFull sets rf = (result.1 != nil ? 1 : rf)
+// the reader gives the connection up (kills its actor, reports fatal) only when the connection itself failed or the
+// peer sent its close frame (length 0) - never because of what a frame contains (C14: an invalid or undecodable
+// frame does not stop later frames)
+//@   ghostvar ml int
+//@   callspec Uint32 sets ml = result + 1
+//@   callspec Kill requires rf == 1 || ml == 1
 //@   callspec HandleRemotingEnvelop requires gcount(consumed, c.conn) == old(gcount(consumed, c.conn)) + 4 + len(msgBuf)
 //@   callspec TellSelf requires gcount(consumed, c.conn) == old(gcount(consumed, c.conn)) + 4 + (msgLen > 4194304 ? 0 : msgLen)
 //@   requires c.conn != nil && !typeis(c.conn, "*bufio.Reader") && ctx != nil && c.envelopHandler != nil && !held(c.writeCloseLock) && messages.regwf()
@@ -35,6 +43,7 @@ package remoting
 // reads and tear frames apart - C14: never a corrupted message), and never after a fatal error
 //@   ensures  forall t mathint :: gcount(rearmed, t) <= old(gcount(rearmed, t)) + 1 && gcount(rearmed, t) >= old(gcount(rearmed, t))
 //@   ensures  fatal ==> forall t mathint :: gcount(rearmed, t) == old(gcount(rearmed, t))
+//@   ensures  fatal ==> rf == 1
 // an undecodable or unhandled frame does not stop the reader: whenever a complete frame was taken from the
 // connection and the call is not fatal, the reader is armed again
 //@   ensures  !fatal && gcount(consumed, c.conn) >= old(gcount(consumed, c.conn)) + 5 ==> exists t mathint :: gcount(rearmed, t) == old(gcount(rearmed, t)) + 1
